@@ -26,7 +26,8 @@ PROPS = {
         "level": "proof",
         "units": ["sproof", "ps", "keys", "cor_ps", "cor_sproof", "lemmas_ps", "lemmas_schnorr"],
         "scans": ["verified_blinded_message_sites"],
-        "assumptions": [PER_INST, "PS unforgeability and discrete-log binding are cryptographic hypotheses, not decided here"],
+        "kani": ["g1_codec_validates"],
+        "assumptions": [PER_INST, "a request arriving from the wire has its G1 atoms decoded by the element codec, which is shown to accept exactly what bls12_381's validating decoder accepts (prime-order subgroup membership is that decoder's documented contract)", "PS unforgeability and discrete-log binding are cryptographic hypotheses, not decided here"],
         "trusted_base": CRYPTO_AXIOMS,
     },
     "C09": {
@@ -158,7 +159,7 @@ PROPS = {
     "C15": {
         "level": "proof",
         "units": ["za_nonce_revlock", "validators"],
-        "kani": ["balance_decode_invariant"],
+        "kani": ["balance_decode_invariant", "g1_codec_validates", "g2_codec_validates", "scalar_codec_validates"],
         "scans": ["serde_routing", "nonce_sites", "revocation_pair_sites"],
         "assumptions": [
             "bls12_381 decoders accept canonical, on-curve, in-subgroup encodings only (documented contract of from_compressed/from_bytes)",
@@ -168,7 +169,7 @@ PROPS = {
     },
     "C16": {
         "level": "proof",
-        "kani": ["array_visitor_total_n1", "array_visitor_total_n5", "boxed_array_visitor_total_n1", "vec_visitor_bounded_allocation"],
+        "kani": ["array_visitor_total_n1", "array_visitor_total_n5", "boxed_array_visitor_total_n1", "vec_visitor_bounded_allocation", "g1_codec_short_input"],
         "scans": ["no_unsafe"],
         "assumptions": [
             "code generated by serde_derive and bincode's own reader are not under contract (macro-generated / dependency)",
@@ -185,9 +186,9 @@ PROPS = {
     },
     "C18": {
         "level": "proof",
-        "units": ["za_nonce_revlock", "za_states", "cor_customer", "lemmas_ps"],
+        "units": ["za_nonce_revlock", "za_states", "cor_customer", "lemmas_ps", "pk_bytes", "za_chanid"],
         "scans": ["nonce_sites"],
-        "assumptions": ["SHA3 collision resistance for 'the channel id changes'; y_2 != 0 from key well-formedness (C19)", "ChannelId::new / to_scalar are contract-only (byte slicing)"],
+        "assumptions": ["SHA3 collision resistance for 'the channel id changes' (the hashed string is PROVED to be the five inputs in order: slice of ChannelId::new + PublicKey::to_bytes; the five-chunk list determines each input given the fixed widths of the first three, flatten-injectivity is not mechanised); y_2 != 0 from key well-formedness (C19)", "the last statement of ChannelId::new (digest -> [u8; 32]) and ChannelId::to_scalar are contract-only (byte slicing); to_scalar has a bounded stand-in (thorough tier)"],
         "trusted_base": CRYPTO_AXIOMS,
     },
     "C20": {
